@@ -60,7 +60,7 @@ CHECKS = {
          "DESIGN.md 5 C15"),
  "C05": ("exploration", "structure-aware bounded-exhaustive input enumeration at every position of real histories, plus explicit-state BFS with an adversarial peer",
          "Truncations, extensions, constant strings and every single boundary-value header-field edit (thorough: pairs) of every genuine datagram, re-sealed with a valid CRC/tag, fed to the real packetInput at the datagram's history position "
-         "(client, listener with/without session, foreign address); forged FEC groups and short typed bodies; raw KCP.Input header-alphabet product incl. >1500-byte payloads; fecDecoder.decode alphabets; adversarial BFS (depth 3/4) on the core. "
+         "(client, listener with/without session, foreign address); forged FEC groups and short typed bodies; raw KCP.Input header-alphabet product incl. >1500-byte payloads; fecDecoder.decode alphabets and stale-flood sequences (64 packets in distinct groups behind the window); adversarial BFS (depth 3/4) on the core. "
          "Oracle: no panic, buffering limits of C04, bounded ack list / shard sets / pool occupancy.",
          "DESIGN.md 5 C05"),
  "C06": ("fault_enumeration", "exhaustive corruption battery per datagram and history position with an independent integrity oracle and a reflective deep-state hash",
@@ -72,7 +72,7 @@ CHECKS = {
          "when the d-th distinct packet arrives every missing data packet must have been reconstructed byte-exactly with zero padding, and everything emitted must be an original of its group.",
          "DESIGN.md 5 C07"),
  "C14": ("exploration", "ThreadSanitizer happens-before race check on every explored schedule of the real code under the controlled scheduler (HB-race mode)",
-         "All 26 UDPSession and 9 Listener methods, each called twice on its own thread on dialled and accepted session against live traffic and a second client, cipher {none, CFB, AEAD} x FEC {off,on} x Close variants; "
+         "All 26 UDPSession and 9 Listener methods, each called twice on its own thread on dialled and accepted session against live traffic and a second client, cipher {none, AES-CFB, AEAD, pure-Go CFB (twofish, blowfish), salsa20} x FEC {off,on} x Close variants, Read also with buffers smaller than a chunk; "
          "the scheduler's hand-offs are hidden from TSan and the shims announce the program's own HB edges, so a race between any two calls is reported on any schedule where both accesses occur; default schedule + single deviations.",
          "DESIGN.md 5 C14"),
  "C16": ("fault_enumeration", "exhaustive enumeration of sender/receiver ratio pairs x starting residues; fate vectors for stability",
@@ -81,12 +81,13 @@ CHECKS = {
          "DESIGN.md 5 C16"),
  "C11": ("fault_enumeration", "exhaustive fate-vector x injection enumeration on a real listener with several real clients; schedule deviations on a subset",
          "Listener + 2-3 dialled clients on the virtual network: every fate vector over the first K datagrams x one injected datagram (same address/other conversation with sn!=0, sn=0, ACK; foreign address replaying the conversation; "
-         "parity/short packets without readable conversation; strangers and stale conversations writing to the dialled client) x three instants x backlog {default, 1} x address types x cipher/FEC classes; "
+         "parity/short packets without readable conversation; datagrams mixing segments of two conversations; strangers and stale conversations writing to the dialled client) x three instants x backlog {default, 1} x address types x cipher/FEC classes; "
+         "plus connect/close/reconnect histories (same address, new conversation, application handlers that close on Read error and close twice) x reconnect instant x idle deadline x fates; "
          "each accepted session's reads must be a prefix of what the peer at its address and conversation wrote, each genuine peer accepted exactly once, nothing foreign delivered, stalled or closed.",
          "DESIGN.md 5 C11"),
  "C19": ("fault_enumeration", "exhaustive payload-length enumeration and fate-vector x schedule exploration of OOB interleaved with stream traffic on real session pairs",
          "Every OOB payload length 0..GetOOBMaxSize()+1 on a clean path for three cipher classes; boundary lengths in both directions under every fate vector and every single scheduling deviation with the independent wire decoder "
-         "(OOB consumes no FEC id, parity covers data only) and the stream oracle; refusal without FEC and above the maximum; two clients on one listener; a new conversation on the same socket while the old one's OOB is in flight.",
+         "(OOB consumes no FEC id, parity covers data only) and the stream oracle; refusal without FEC and above the maximum; two clients on one listener; a new conversation on the same address while the old one's OOB is in flight, on the dialled and on the listener side.",
          "DESIGN.md 5 C19"),
 }
 NOT_YET = {}
